@@ -4,6 +4,8 @@
 (* of harness/drive.py), x = "other" marks the second, untouched context:   *)
 (*   submit(q, x)  done(q, cls)  call(inv)  release(inv)  cancelled(inv)    *)
 (*   tx(x)  shutdown  shutdown-done(cls)  loopexc(x)  end                   *)
+(* The second context may serve requests as well: rx(x = "other", cls =      *)
+(* "req") is a request datagram it read, its handler events carry loc = "o". *)
 EXTENDS Naturals, Integers, Sequences, FiniteSets
 
 CONSTANTS ShutdownTimeout      \* SHUTDOWN_TIMEOUT (ticks)
@@ -13,6 +15,8 @@ Put(f, k, v) == [x \in (DOMAIN f) \cup {k} |-> IF x = k THEN v ELSE f[x]]
 
 ObsInit == [ rq |-> << >>,       \* q -> [other, st ("out"|"done"), late, cls, at, sub]
              hd |-> << >>,       \* inv -> "running" | "finished" | "cancelled"
+             ohd |-> << >>,      \* the same for handlers of the other context
+             oreq |-> << >>,     \* <<r, mid>> -> [con, tok, acked, answered]   requests the other context read
              shutAt |-> -1, retAt |-> -1, retOk |-> FALSE,
              bad |-> {} ]
 
@@ -43,13 +47,24 @@ ObsObsEnd(o, e) ==
   ELSE FlagIf([o EXCEPT !.rq[e.q].obsEnded = TRUE],
               ~o.rq[e.q].other /\ o.shutAt >= 0 /\ e.cls \notin ErrClasses, "C18_AllPendingFail")
 
-ObsCall(o, e) == [o EXCEPT !.hd = Put(@, e.inv, "running")]
+\* a request datagram read by the other context
+ObsRx(o, e) ==
+  IF e.x = "other" /\ e.cls = "req" /\ ~Has(o.oreq, <<e.r, e.mid>>)
+    THEN [o EXCEPT !.oreq = Put(@, <<e.r, e.mid>>, [con |-> e.ty = "CON", tok |-> e.tok, acked |-> FALSE, answered |-> FALSE])]
+    ELSE o
+
+ObsCall(o, e) == IF e.loc = "o" THEN [o EXCEPT !.ohd = Put(@, e.inv, "running")]
+                 ELSE [o EXCEPT !.hd = Put(@, e.inv, "running")]
 \* a handler that produces its outcome after shutdown() returned was evidently still running, not cancelled
 ObsRelease(o, e) ==
-  IF Has(o.hd, e.inv)
+  IF e.loc = "o" THEN (IF Has(o.ohd, e.inv) THEN [o EXCEPT !.ohd[e.inv] = "finished"] ELSE o)
+  ELSE IF Has(o.hd, e.inv)
     THEN FlagIf([o EXCEPT !.hd[e.inv] = "finished"], o.retAt >= 0 /\ o.hd[e.inv] = "running", "C18_HandlersCancelled")
     ELSE o
-ObsCancelled(o, e) == IF Has(o.hd, e.inv) THEN [o EXCEPT !.hd[e.inv] = "cancelled"] ELSE o
+\* a handler of the other context must run to its end, whatever happens to the first context
+ObsCancelled(o, e) ==
+  IF e.loc = "o" THEN FlagIf(o, o.shutAt >= 0, "C18_OtherContextUnaffected")
+  ELSE IF Has(o.hd, e.inv) THEN [o EXCEPT !.hd[e.inv] = "cancelled"] ELSE o
 
 ObsShutdown(o, e) == [o EXCEPT !.shutAt = e.t]
 ObsShutdownDone(o, e) ==
@@ -57,7 +72,15 @@ ObsShutdownDone(o, e) ==
          e.cls # "ok" \/ e.t > o.shutAt + ShutdownTimeout, "C18_ShutdownReturns")
 
 \* nothing is transmitted by the context once shutdown() has returned
-ObsTx(o, e) == FlagIf(o, e.x # "other" /\ o.retAt >= 0, "C18_SilentAfterReturn")
+ObsTx(o, e) ==
+  IF e.x # "other" THEN FlagIf(o, o.retAt >= 0, "C18_SilentAfterReturn")
+  ELSE \* the other context acknowledges and answers what it was asked
+       LET key == <<e.r, e.mid>>
+           o1 == IF e.ty = "ACK" /\ Has(o.oreq, key) THEN [o EXCEPT !.oreq[key].acked = TRUE] ELSE o
+       IN IF e.cls = "resp"
+            THEN [o1 EXCEPT !.oreq = [k \in DOMAIN @ |-> IF k[1] = e.r /\ @[k].tok = e.tok
+                                                          THEN [@[k] EXCEPT !.answered = TRUE] ELSE @[k]]]
+            ELSE o1
 
 ObsLoopExc(o, e) == Flag(o, "C18_NoLoopException")
 
@@ -72,12 +95,17 @@ ObsEnd(o, e) ==
                                                    /\ ~o.rq[q].obsEnded, "C18_AllPendingFail")
            o4 == FlagIf(o3b, \E i \in DOMAIN o.hd : o.hd[i] = "running", "C18_HandlersCancelled")
            o5 == FlagIf(o4, \E q \in DOMAIN o.rq : o.rq[q].other /\ o.rq[q].st = "out", "C18_OtherContextUnaffected")
-       IN o5
+           \* what the other context was serving is acknowledged, answered and finished all the same
+           o6 == FlagIf(o5, \/ \E k \in DOMAIN o.oreq : (o.oreq[k].con /\ ~o.oreq[k].acked) \/ ~o.oreq[k].answered
+                            \/ \E i \in DOMAIN o.ohd : o.ohd[i] # "finished",
+                        "C18_OtherContextUnaffected")
+       IN o6
 
 ObsEvent(o, e) ==
   CASE e.k = "submit"        -> ObsSubmit(o, e)
     [] e.k = "done"          -> ObsDone(o, e)
     [] e.k = "obsend"        -> ObsObsEnd(o, e)
+    [] e.k = "rx"            -> ObsRx(o, e)
     [] e.k = "call"          -> ObsCall(o, e)
     [] e.k = "release"       -> ObsRelease(o, e)
     [] e.k = "cancelled"     -> ObsCancelled(o, e)
